@@ -1,6 +1,7 @@
 import AvoVerif.Props.C04
 import AvoVerif.Props.C04Build
 import AvoVerif.Props.C04Tables
+import AvoVerif.Props.C04Alias
 #print axioms Avo.RW.covers_sound
 #print axioms Avo.RW.judge_iff
 #print axioms Avo.RW.mem_undeclared
@@ -14,6 +15,22 @@ import AvoVerif.Props.C04Tables
 #print axioms Avo.BuildRW.declaredReads_isSome
 #print axioms Avo.BuildRW.declaredWrites_eq_spec
 #print axioms Avo.BuildRW.declared_cover_iff
+#print axioms Avo.BuildRW.assign_positions
+#print axioms Avo.BuildRW.assign_isSome_iff
+#print axioms Avo.BuildRW.mem_specWrites_iff
+#print axioms Avo.BuildRW.mem_readRegs_iff
+#print axioms Avo.BuildRW.mem_writtenMemAddrRegs_iff
+#print axioms Avo.BuildRW.specReads_false
+#print axioms Avo.BuildRW.mem_specReads_of_read
+#print axioms Avo.BuildRW.mem_specReads_of_addr
+#print axioms Avo.BuildRW.specReads_sub
+#print axioms Avo.BuildRW.declaredWrites_lanes_union
+#print axioms Avo.BuildRW.declaredReads_lanes_union
+#print axioms Avo.BuildRW.implicit_write_declared
+#print axioms Avo.BuildRW.implicit_read_declared
+#print axioms Avo.BuildRW.acceptDecl_sound
+#print axioms Avo.BuildRW.model_accepted
+#print axioms Avo.BuildRW.declMissing_nil_iff
 #print axioms Avo.FormActions.Tables.table_rowOK
 #print axioms Avo.FormActions.Tables.table_shape
 #print axioms Avo.FormActions.Tables.cancelling_forms_lead_with_two_registers
